@@ -235,10 +235,12 @@ DEP_POS = {
     'required-computed': "type {O} {{ property tag: str; required single link c := assert_exists(E); }}",
 }
 # expressions of a type that lean on its OWN pointers declared later in the text
-SELF_DEP = ("type {O} {{ constraint exclusive on (.a) except (.flag); index on ((.a, .b)); "
-            "constraint expression on (.b > 0 or .flag); required property rq := .a; "
-            "single property both := .a ++ <str>.b; "
-            "required property a: str; required property b: int64; required property flag: bool; }}")
+# (pointers first in the ORIGINAL text, so that it also loads member by member as DDL; DESCRIBE prints
+# constraints and indexes first and the pointers alphabetically: `both` < `flag` < `rq` around `a`, `b`)
+SELF_DEP = ("type {O} {{ required property a: str; required property b: int64; required property flag: bool; "
+            "required property rq := .a; single property both := .a ++ <str>.b; "
+            "constraint exclusive on (.a) except (.flag); index on ((.a, .b)); "
+            "constraint expression on (.b > 0 or .flag); }}")
 
 
 # On the UNCHANGED tree the ordering pass does not put an OBJECT-level constraint
@@ -294,7 +296,10 @@ def dep_schema(rng, positions=None, ref_kinds=None, allow_known_bad=False):
         info.append((pos, kind, 'before' if before else 'after', om, rm))
     owners['default'].append(SELF_DEP.format(O='ASelfDep'))
     owners['other'].append(SELF_DEP.format(O='ZSelfDep'))
-    # original text: referenced declarations first (so that loading it never depends on the ordering
-    # pass being right); DESCRIBE re-orders alphabetically
-    text = '\n'.join(f'module {m} {{\n  ' + '\n  '.join(decls[m] + owners[m]) + '\n}' for m in MODULES)
+    # original text: ALL referenced declarations (of every module) first, then the owners — module blocks
+    # may repeat in SDL.  apply_sdl regroups the declarations by module, so whether this text loads still
+    # depends on the ordering pass (the harness then falls back to applying the declarations one by one
+    # as DDL in this document order); DESCRIBE re-orders alphabetically.
+    blocks = [(m, decls[m]) for m in MODULES] + [(m, owners[m]) for m in MODULES]
+    text = '\n'.join(f'module {m} {{\n  ' + '\n  '.join(ds) + '\n}' for m, ds in blocks if ds)
     return text, info
